@@ -15,7 +15,7 @@ import itertools
 import signal
 
 from ..core import env, gcc, par, shrink
-from ..core.result import Failure, Report
+from ..core.result import Failure, Report, robust
 from ..ref import expand as rx
 
 ID = "C03"
@@ -42,12 +42,13 @@ def fam1(k):
 def fam1b(k):
     """longer bodies over a reduced alphabet: a plain use of a parameter followed by a ## use of the same one, nested self calls"""
     P = ["x", "y", "##", "1", "k", "+"]
-    inv = ["F(1,2)", "F(F(1,2),3)", "F(A,2)", "F(F(A,A),F(1,2))", "F(,)", "F(G LP 5), 2)", "F(F,1)(2,3)"]
+    inv = ["F(1,2)", "F(F(1,2),3)", "F(A,2)", "F(F(A,A),F(1,2))", "F(,)", "F(G LP 5), 2)", "F(F,1)(2,3)", "F(B,2)", "F(B,B)", "F(2,B) + F(B,2)"]
     for b in strings(P, k):
         if len(b.split()) < 3:
             continue
         for i in inv:
-            yield ([f"F(x,y) {b}", "A 1 A", "G(z) z F", "LP ("], i)
+            # B: an object-like macro whose expansion is a call of F itself (pre-expansion of an argument B differs from rescanning it inside F)
+            yield ([f"F(x,y) {b}", "A 1 A", "G(z) z F", "LP (", "B F(1,2)"], i)
 
 
 def fam2(k, small):
@@ -64,9 +65,10 @@ def fam2(k, small):
 
 
 def fam3(k):
-    PA = ["A", "B", "1", "+", "F(1)", "(B)"]
+    PA = ["A", "B", "1", "+", "F(1)", "(B)", "F(A)"]
     PB = ["A", "B", "2", "+", "F(B)", "(A)"]
-    inv = ["A", "B", "A B", "A + B", "F(A)", "F(B)"]
+    # the same argument spelling pre-expanded inside and outside the expansion of A within one directive
+    inv = ["A", "B", "A B", "A + B", "F(A)", "F(B)", "A + F(A)", "F(A) + A", "F(A) F(B) F(A)"]
     for ba in strings(PA, k):
         for bb in strings(PB, k):
             for i in inv:
@@ -335,7 +337,7 @@ def _work(arg):
     out = []
     seen = set()
     for c, via in fails:
-        f = mk_failure(c, via, single)
+        f = robust(mk_failure, {"defines": list(c[0]), "invocation": c[1], "via": via}, c, via, single)
         if f and f.key() not in seen:
             seen.add(f.key())
             out.append(f)
